@@ -182,6 +182,16 @@ func checkReentrant(r *core.Report, rule string, root *core.Func, what string) {
 					if sharedField(s.X) && bad == "" {
 						bad, badPos = "modifies "+core.ExprStr(s.X), s
 					}
+				case *ast.KeyValueExpr:
+					// a byte buffer kept on the shared object is handed to another object (Bucket{entryBuf: db.entryBuf}): every
+					// object built from it writes into the same bytes
+					if t := info.TypeOf(s.Value); t != nil && isByteSlice(t) && bad == "" {
+						if sel, ok := core.Unparen(s.Value).(*ast.SelectorExpr); ok && isShared(sel.X) {
+							if fv, isVar := info.ObjectOf(sel.Sel).(*types.Var); isVar && fv.IsField() && !fv.Exported() {
+								bad, badPos = "hands the byte buffer "+core.ExprStr(s.Value)+" kept on the shared "+shared.Obj().Name()+" to another object", s
+							}
+						}
+					}
 				case *ast.CallExpr:
 					nm := core.CalleeName(info, s)
 					// a positioned (stateful) reader kept on the shared object: Seek / Read move a cursor that all callers share
